@@ -30,6 +30,14 @@ Theorem C10_builtin_names_are_the_predeclared_types :
 Proof. exact builtin_table_is_the_spec. Qed.
 Print Assumptions C10_builtin_names_are_the_predeclared_types.
 
+(* an alias denotes its target at EVERY level of the matched type: the source strips aliases in front of the dispatch of
+   matchIdentical (the entry every recursion goes through), as the model does at every entry of match_k *)
+Theorem C10_aliases_are_stripped_at_every_entry :
+  (gen_match_prologue = ["typ = types.Unalias(typ)"] /\ gen_match_switch_tag = "sub.op") /\
+  (forall ident p t st k, match_k ident p t st k = match_k ident p (unalias_top t) st k).
+Proof. exact (conj match_prologue_is_unalias model_unaliases_at_every_entry). Qed.
+Print Assumptions C10_aliases_are_stripped_at_every_entry.
+
 Theorem C10_parse_placeholders :
   gen_parse_replacements = [("s", "$*", "varSeqPrefix"); ("noDollars", "$", "varPrefix")] /\
   is_prefix gen_varPrefix_bytes gen_varSeqPrefix_bytes = false /\ is_prefix gen_varSeqPrefix_bytes gen_varPrefix_bytes = false.
